@@ -670,3 +670,314 @@ class Ms5:
 KINDS = {}
 for _k in (Rwms(), Ms(), Gfms(), Ms5()):
     KINDS[_k.name] = _k
+
+
+# =====================================================================================
+class Sfcf:
+    """sfcf text correlators in separate (o), compact (c) and appended (a) layout."""
+    name = "sfcf"
+    NAMES = {"f_A": "bi", "f_P": "bi", "k_V": "bi", "F_V0": "bib", "K_T": "bib", "f_1": "bb", "k_1": "bb"}
+
+    def gen(self, rng, small=False):
+        layout = rng.choice(["o", "c", "a"])
+        T = rng.randint(1, 4)
+        ens = rng.choice(["data_", "test", "A654", "N300k_", "sf2"])
+        sepstyle = rng.choice(["_r", "_r", "r"])
+        names = rng.sample(sorted(self.NAMES), rng.randint(1, 3))
+        blocks = []
+        for nm in names:
+            ty = self.NAMES[nm]
+            quarks = rng.sample(["lquark lquark", "lquark squark", "squark squark"], rng.randint(1, 2))
+            offs = rng.sample([0, 1, 2], rng.randint(1, 2))
+            wfs = rng.sample([0, 1, 2], rng.randint(1, 2))
+            wf2s = rng.sample([0, 1, 2], rng.randint(1, 2)) if ty != "bi" else [None]
+            combos = [(q, o, w, w2) for q in quarks for o in offs for w in wfs for w2 in wf2s]
+            rng.shuffle(combos)
+            for (q, o, w, w2) in combos[:rng.randint(1, 4)]:
+                b = {"name": nm, "quarks": q, "off": o, "wf": w, "type": ty}
+                if w2 is not None:
+                    b["wf2"] = w2
+                blocks.append(b)
+        if layout == "c":
+            rng.shuffle(blocks)     # compact files interleave correlator names
+        p = {"kind": "sfcf", "layout": layout, "T": T, "ens": ens, "blocks": blocks, "data_seed": rng.getrandbits(32),
+             "version": rng.choice(["1.0", "2.0"])}
+        R = rng.choice([1, 1, 2, 2, 3])
+        ks = sorted(rng.sample(REPNUMS, R))
+        reps = []
+        for k in ks:
+            nrec = rng.randint(5, 7 if small else 14)
+            mode = rng.choice(["contig", "contig", "stride", "irregular"])
+            first = rng.randint(1, 30)
+            if mode == "contig":
+                cfgs = list(range(first, first + nrec))
+            elif mode == "stride":
+                s = rng.choice([2, 5, 10])
+                cfgs = list(range(first, first + s * nrec, s))
+            else:
+                cfgs = sorted(rng.sample(range(first, first + 3 * nrec), nrec))
+            reps.append({"k": k, "nrec": nrec, "cfgs": cfgs, "dir": "%s%s%d" % (ens, sepstyle, k)})
+        p["reps"] = reps
+        p["distractors"] = layout != "a" and rng.random() < 0.5
+        p["calls"] = [self.gen_call(rng, p) for _ in range(rng.randint(1, 3))]
+        return p
+
+    def gen_call(self, rng, p):
+        c = {"perm_seed": rng.getrandbits(30) if rng.random() < 0.85 else None}
+        if p["layout"] == "a":
+            # the appended reader can only address the first correlator of a chunk (observed limitation, DESIGN App. A)
+            firsts = {}
+            for bi, b in enumerate(p["blocks"]):
+                firsts.setdefault(b["name"], bi)
+            bi = rng.choice(sorted(firsts.values()))
+        else:
+            bi = rng.randrange(len(p["blocks"]))
+        b = p["blocks"][bi]
+        c["block"] = bi
+        c["im"] = rng.random() < 0.3
+        c["quarks_explicit"] = True
+        c["sel"] = "none"
+        r = rng.random()
+        order = sorted_reps(p["reps"])
+        if r < 0.2:
+            c["names"] = ["%s|r%d" % ("Yens", p["reps"][i]["k"]) for i in order]
+            c["sel"] = "names"
+        elif r < 0.4:
+            c["ens_name"] = "Zens"
+            c["sel"] = "ens_name"
+        elif r < 0.55 and p["layout"] != "a":
+            # explicit file lists per replica (a subset of >= 5 configurations)
+            fl = []
+            for i in order:
+                rp = p["reps"][i]
+                m = rng.randint(5, len(rp["cfgs"]))
+                sub = sorted(rng.sample(rp["cfgs"], m))
+                if p["layout"] == "o":
+                    fl.append(["cfg%d" % n for n in sub])
+                else:
+                    fl.append(["%s_n%d" % (rp["dir"], n) for n in sub])
+                rng.shuffle(fl[-1])
+            c["files"] = fl
+            c["sel"] = "files"
+        elif r < 0.65:
+            c["replica"] = [p["reps"][i]["dir"] for i in order] if p["layout"] != "a" else None
+            if c["replica"] is None:
+                del c["replica"]
+            else:
+                c["sel"] = "replica"
+        return c
+
+    def nwriters(self, p):
+        return len(self.images(p))
+
+    def images(self, p):
+        out = []
+        idx = 0
+        self._index = {}
+        for i in range(len(p["reps"])):
+            imgs, model = formats.sfcf_files(p, i)
+            for img in imgs:
+                out.append((img, idx, {"rep": i, "model": model}))
+                idx += 1
+        return out
+
+    def extra_files(self, p):
+        if p.get("distractors"):
+            return {"other_x1/readme": b"x", p["reps"][0]["dir"] + "/zz_notes.txt": b"notes\n", p["reps"][0]["dir"] + "/zzdir/a": b"a"}
+        return {}
+
+    def _rep_name(self, p, rp, call, pos):
+        if "names" in call:
+            return call["names"][pos]
+        d = rp["dir"]
+        idx = d.index("r")
+        if "ens_name" in call:
+            return call["ens_name"] + "|" + d[idx:]
+        return d[:idx] + "|" + d[idx:]
+
+    def block_complete(self, p, img, cut, bi_in_file):
+        """is record number bi_in_file of this image completely (incl. trailing newline of its last data line) before cut?"""
+        if cut is None:
+            return True
+        b = img.boundaries()
+        # the record's last byte is the blank line's newline; data ends one byte earlier
+        return b[bi_in_file + 1] - 1 <= cut
+
+    def expect(self, p, models, nrecs, call, cfgsets=None):
+        """full-data expectation (optionally restricted to cfgsets[rep] lists)."""
+        order = sorted_reps(p["reps"])
+        b = p["blocks"][call["block"]]
+        T = 1 if b["type"] == "bb" else p["T"]
+        names, cfgs = [], []
+        vals = [[] for _ in range(T)]
+        for pos, i in enumerate(order):
+            rp = p["reps"][i]
+            cf = list(rp["cfgs"])
+            if "files" in call:
+                want = [int(re.findall(r"\d+", f)[-1]) for f in call["files"][pos]]
+                cf = sorted(want)
+            if cfgsets is not None:
+                cf = [c for c in cf if c in cfgsets[i]]
+            if len(cf) < 5:
+                return None
+            model = None
+            for k, m in models.items():
+                if m["rep"] == i:
+                    model = m["model"]
+                    break
+            names.append(self._rep_name(p, rp, call, pos))
+            cfgs.append(cf)
+            for t in range(T):
+                vals[t].append([model[c][call["block"]][t][1 if call["im"] else 0] for c in cf])
+        return {"t%d" % t: ospec_from(names, cfgs, vals[t]) for t in range(T)}
+
+    def invoke(self, p, d, call):
+        import pyerrors as pe
+        b = p["blocks"][call["block"]]
+        kw = {}
+        for k in ("names", "ens_name", "files", "replica"):
+            if k in call:
+                kw[k] = [list(x) if isinstance(x, list) else x for x in call[k]] if isinstance(call[k], list) else call[k]
+        if call["im"]:
+            kw["im"] = True
+        ver = p["version"] + {"o": "", "c": "c", "a": "a"}[p["layout"]]
+        res = pe.input.sfcf.read_sfcf(d, p["ens"], b["name"], quarks=b["quarks"], corr_type=b["type"], noffset=b["off"], wf=b["wf"],
+                                      wf2=b.get("wf2", 0), version=ver, silent=True, **kw)
+        return {"t%d" % t: o for t, o in enumerate(res)}
+
+    def component(self, p, call):
+        return "read_sfcf/%s/%s" % (p["layout"], p["blocks"][call["block"]]["type"])
+
+
+# =====================================================================================
+class Hadrons:
+    """Hadrons meson hdf5 files, one file per configuration."""
+    name = "hadrons"
+    tree = True
+    GAMMAS = [("Gamma5", "Gamma5"), ("GammaT", "Gamma5"), ("GammaX", "GammaX"), ("GammaTGamma5", "GammaTGamma5")]
+
+    def gen(self, rng, small=False):
+        n = rng.randint(5, 7 if small else 16)
+        mode = rng.choice(["contig", "stride", "stride", "irregular"])
+        first = rng.randint(0, 2000)
+        if mode == "contig":
+            cfgs = list(range(first, first + n))
+        elif mode == "stride":
+            s = rng.choice([2, 10, 40])
+            cfgs = list(range(first, first + s * n, s))
+        else:
+            cfgs = sorted(rng.sample(range(first, first + 4 * n), n))
+            if len(set(np.diff(cfgs))) == 1:
+                cfgs[-1] += 1
+        p = {"kind": "hadrons", "T": rng.randint(2, 6), "stem": rng.choice(["meson_prop", "pt2pt", "m.l"]), "ens": rng.choice(["A654", "ens|r1", "H105r005"]),
+             "gammas": rng.sample(self.GAMMAS, rng.randint(1, 3)), "cfgs": cfgs, "mode": mode, "data_seed": rng.getrandbits(32),
+             "distractors": rng.random() < 0.5}
+        p["calls"] = [self.gen_call(rng, p) for _ in range(rng.randint(1, 3))]
+        return p
+
+    def gen_call(self, rng, p):
+        c = {"perm_seed": rng.getrandbits(30) if rng.random() < 0.85 else None, "k": rng.randrange(len(p["gammas"])),
+             "by_gammas": rng.random() < 0.5, "api": rng.choice(["meson", "meson", "hd5_real", "hd5_imag", "hd5_complex"])}
+        cf = p["cfgs"]
+        r = rng.random()
+        c["sel"] = "none" if p["mode"] != "irregular" else "irregular_needs_idl"
+        if p["mode"] == "irregular":
+            if r < 0.7:
+                c["idl"] = list(cf)
+                c["sel"] = "idl_full_irregular"
+        elif r < 0.3:
+            # sub-range with the files' own stride
+            s = cf[1] - cf[0]
+            i0 = rng.randint(0, len(cf) - 5)
+            i1 = rng.randint(i0 + 4, len(cf) - 1)
+            m = rng.choice([1, 1, 2]) if (i1 - i0) >= 8 else 1
+            c["idl"] = ["range", cf[i0], cf[i1] + 1, s * m]
+            c["sel"] = "idl_range"
+        elif r < 0.4:
+            c["idl"] = ["range", cf[0], cf[-1] + 1 + (cf[1] - cf[0]) * 3, cf[1] - cf[0]]
+            c["sel"] = "idl_missing"
+        elif r < 0.5:
+            c["idl"] = sorted(rng.sample(cf, rng.randint(5, len(cf))))
+            c["sel"] = "idl_list"
+        return c
+
+    def nwriters(self, p):
+        return 1
+
+    def images(self, p):
+        return []
+
+    def write_all(self, p, d, cfgs=None):
+        models = {}
+        os.makedirs(d, exist_ok=True)
+        for c in (p["cfgs"] if cfgs is None else cfgs):
+            models[c] = formats.write_hadrons(p, c, os.path.join(d, "%s.%d.h5" % (p["stem"], c)))
+        if p.get("distractors"):
+            with open(os.path.join(d, "%s_other.%d.h5" % (p["stem"], p["cfgs"][0])), "wb") as f:
+                f.write(b"not hdf5")
+            with open(os.path.join(d, "notes.txt"), "wb") as f:
+                f.write(b"x")
+        return models
+
+    def _idl(self, call):
+        if "idl" not in call:
+            return None
+        if call["idl"] and call["idl"][0] == "range":
+            return list(range(call["idl"][1], call["idl"][2], call["idl"][3]))
+        return list(call["idl"])
+
+    def expect(self, p, models, nrecs, call, present=None):
+        cf = [c for c in p["cfgs"] if present is None or c in present]
+        idl = self._idl(call)
+        if idl is not None:
+            if sorted(set(idl) - set(cf)):
+                return None
+            cf = [c for c in cf if c in set(idl)]
+        if len(cf) < 5:
+            return None
+        if len(set(np.diff(cf))) != 1 and idl is None:
+            return None
+        k = call["k"]
+        out = {}
+        for t in range(p["T"]):
+            if call["api"] in ("meson", "hd5_real", "hd5_complex"):
+                out["t%d.re" % t] = ospec_from([p["ens"]], [cf], [[models[c][k][t][0] for c in cf]])
+            if call["api"] in ("hd5_imag", "hd5_complex"):
+                out["t%d.im" % t] = ospec_from([p["ens"]], [cf], [[models[c][k][t][1] for c in cf]])
+        return out
+
+    def invoke(self, p, d, call):
+        import pyerrors as pe
+        idl = None
+        if "idl" in call:
+            idl = range(call["idl"][1], call["idl"][2], call["idl"][3]) if call["idl"][0] == "range" else list(call["idl"])
+        snk, src = p["gammas"][call["k"]]
+        if call["api"] == "meson":
+            if call["by_gammas"]:
+                res = pe.input.hadrons.read_meson_hd5(d, p["stem"], p["ens"], gammas=(snk, src), idl=idl)
+            else:
+                res = pe.input.hadrons.read_meson_hd5(d, p["stem"], p["ens"], meson="meson_%d" % call["k"], idl=idl)
+            part = "real"
+        else:
+            part = call["api"][4:]
+            attrs = {"gamma_snk": snk, "gamma_src": src} if call["by_gammas"] else call["k"]
+            res = pe.input.hadrons.read_hd5(d + "/" + p["stem"], p["ens"], "meson", attrs=attrs, idl=idl, part=part)
+        if res.T != p["T"]:
+            raise AssertionError("T=%d" % res.T)
+        out = {}
+        for t in range(res.T):
+            e = res.content[t][0]
+            if part == "complex":
+                out["t%d.re" % t], out["t%d.im" % t] = e.real, e.imag
+            elif part == "imag":
+                out["t%d.im" % t] = e
+            else:
+                out["t%d.re" % t] = e
+        return out
+
+    def component(self, p, call):
+        return "read_meson_hd5" if call["api"] == "meson" else "read_hd5/" + call["api"][4:]
+
+
+for _k in (Sfcf(), Hadrons()):
+    KINDS[_k.name] = _k
